@@ -46,6 +46,7 @@ class LawfulNum (α : Type) [NumOps α] [Lean.Grind.Field α] where
   isNaN_false : ∀ a : α, NumOps.isNaN a = false
   le_mul_pos : ∀ a b c : α, Pos c → NumOps.le (a * c) (b * c) = NumOps.le a b
   abs_mul_pos : ∀ a c : α, Pos c → NumOps.abs (a * c) = NumOps.abs a * c
+  abs_le_zero_iff : ∀ a : α, NumOps.le (NumOps.abs a) 0 = true ↔ a = 0
 
 variable {α : Type} [NumOps α] [Lean.Grind.Field α] [L : LawfulNum α]
 
